@@ -59,7 +59,7 @@ static void nist_kdf(uint8_t *key, size_t key_len, const uint8_t *in,
 	}
 
 	/* d = ceil(kLen/hLen). */
-	d = RLC_CEIL(key_len, RLC_MD_LEN);
+	d = (key_len == 0 ? 0 : RLC_CEIL(key_len, RLC_MD_LEN));
 	memcpy(buffer, in, in_len);
 	for (i = value; i < d + value; i++) {
 		j = util_conv_big(i);
